@@ -474,6 +474,16 @@ def r08_13(ctx: Ctx, rule: str = "R08.13") -> None:
                 continue
         n += 1
         not_7z = any((not pol) and isinstance(cd, ast.Call) and attr_tail(cd) in ("_check_7zfile", "is_7zfile") for cd, pol in facts)
+        # the signature is looked for at offset 0 (a file object handed in may stand anywhere): a seek(0) dominates the signature test
+        cfg0 = cfg_of(init.node)
+        sig_tests = [t for t in cfg0.nodes if t.kind == "test" and any(isinstance(x, ast.Call) and attr_tail(x) in ("_check_7zfile", "is_7zfile") for x in ast.walk(t.ast))
+                     and cfg0.dominates(t, q.node_for(init, c))]
+        for t in sig_tests:
+            rewound = any(attr_tail(s0) == "seek" and s0.args and isinstance(s0.args[0], ast.Constant) and s0.args[0].value == 0 and cfg0.dominates(q.node_for(init, s0), t)
+                          for s0 in q.calls(init))
+            ctx.check(rewound, rule, init, t.ast, "append mode looks for the signature at offset 0",
+                      "in mode 'a' the 7z signature is tested at the CURRENT position of the file object: a handle positioned at the end (opened for appending, or just written "
+                      "to) is taken for 'not a 7z file' and the existing archive is overwritten by a new one", construct="append signature test position")
         ctx.check(not_7z and not in_handler, rule, init, c, "append mode writes a new archive only over a file without the 7z signature",
                   "in mode 'a' `_prepare_write` runs " + ("inside an exception handler around the parse of the existing archive" if in_handler else "without the signature test having failed") +
                   ": an existing 7z archive that the parser rejects (anti-item, unsupported record, damage, wrong header password) is silently replaced by a new "
